@@ -353,12 +353,15 @@ class LogixDriver(CIPDriver):
             data_type=Struct(n_bytes(6), ULINT("µs")),
         )
         if tag:
-            _time = datetime.datetime(1970, 1, 1) + datetime.timedelta(microseconds=tag.value["µs"])
-            value = {
-                "datetime": _time,
-                "microseconds": tag.value["µs"],
-                "string": _time.strftime(fmt),
-            }
+            try:
+                _time = datetime.datetime(1970, 1, 1) + datetime.timedelta(microseconds=tag.value["µs"])
+                value = {
+                    "datetime": _time,
+                    "microseconds": tag.value["µs"],
+                    "string": _time.strftime(fmt),
+                }
+            except (OverflowError, ValueError) as err:  # a count of microseconds beyond what datetime can hold
+                return Tag("get_plc_time", None, None, error=f"Invalid time value - {err}")
         else:
             value = None
         return Tag("get_plc_time", value, None, error=tag.error)
